@@ -63,7 +63,17 @@ where
                 // Loop until we are done or that some of the polls return `Pending`
                 loop {
                     trace!("polling us");
-                    let new_buf = ready!(Pin::new(&mut *this.us).poll_fill_buf(cx))?;
+                    let new_buf = match Pin::new(&mut *this.us).poll_fill_buf(cx) {
+                        Poll::Ready(res) => res?,
+                        Poll::Pending => {
+                            // Nothing more to relay for now. The other side may buffer writes
+                            // (e.g. `BufWriter`, TLS), so make sure what we handed over gets
+                            // out instead of waiting for unrelated traffic or the end of the stream.
+                            ready!(this.other.as_mut().poll_flush(cx))?;
+                            // `poll_fill_buf` has our waker
+                            return Poll::Pending;
+                        }
+                    };
                     if new_buf.is_empty() {
                         // Our side EOF
                         *this.read_state = ReadState::ShuttingDown(read_amt);
